@@ -10,6 +10,7 @@ import (
 	"verif/internal/harness"
 	"verif/internal/xast"
 	"verif/internal/xdoc"
+	"verif/internal/xgen"
 	"verif/internal/xref"
 )
 
@@ -181,7 +182,7 @@ func evalWith(e *xpath.Expr, l *harness.Live) (harness.Value, *harness.Failure) 
 
 // refNodes evaluates the AST with the reference evaluator and expects a node-set.
 func refNodes(l *harness.Live) (xref.NodeSet, error) {
-	v, err := xref.Eval(&xref.Env{Doc: l.Doc}, l.AST, l.Ctx)
+	v, err := xref.Eval(refEnvOf(l), l.AST, l.Ctx)
 	if err != nil {
 		return nil, err
 	}
@@ -313,7 +314,7 @@ func sweepContexts(l *harness.Live) *harness.Failure {
 	}
 	nodes = append(append([]*xdoc.Node{}, nodes...), nodes[0])
 	for _, n := range nodes {
-		rv, err := xref.Eval(&xref.Env{Doc: l.Doc}, l.AST, n)
+		rv, err := xref.Eval(refEnvOf(l), l.AST, n)
 		if err != nil {
 			continue // out of the reference's domain at this node: nothing to compare (the call is skipped)
 		}
@@ -353,4 +354,44 @@ func renderDrawn(rt *rapid.T, e xast.Expr) string {
 		return xast.Join(toks, func(i int) string { return seps[i] })
 	}
 	return xast.Render(e)
+}
+
+// refEnvOf is the reference evaluator's environment for a case. Under a namespace map
+// (CompileWithNS) a prefixed name test matches by (URI bound to the prefix, local name),
+// whatever prefix the document uses (C14); the generators draw only prefixed tests then.
+func refEnvOf(l *harness.Live) *xref.Env {
+	env := &xref.Env{Doc: l.Doc}
+	if l.HasNS && l.NSMap != nil {
+		m := l.NSMap
+		env.Match = func(t xast.NodeTest, n *xdoc.Node) bool {
+			if t.Prefix == "" {
+				return n.Local == t.Local && n.Prefix == ""
+			}
+			return n.Local == t.Local && n.NS == m[t.Prefix]
+		}
+	}
+	return env
+}
+
+// nsModeFor turns a case into a namespace case (one in six): the document gets prefixes
+// p, q, r over two URIs - so one prefix is bound to different URIs in different places and
+// different prefixes to one URI -, the generator draws name tests with the prefixes p and q
+// only, and the expression is compiled with a map that binds them. Returns the options to
+// build the document from and a function that finishes the generator and the case.
+func nsModeFor(rt *rapid.T, base xgen.DocOpts) (xgen.DocOpts, func(g *xgen.G, l *harness.Live)) {
+	if rapid.IntRange(0, 5).Draw(rt, "nsmode") != 5 {
+		return base, func(*xgen.G, *harness.Live) {}
+	}
+	base.NS = &xgen.NSOpts{Prefixes: []string{"", "p", "q", "r"}, URIs: []string{"", "u1", "u2"}}
+	nsmap := map[string]string{"p": rapid.SampledFrom([]string{"u1", "u2"}).Draw(rt, "bind-p"), "q": rapid.SampledFrom([]string{"u1", "u2"}).Draw(rt, "bind-q")}
+	return base, func(g *xgen.G, l *harness.Live) {
+		if g != nil {
+			g.Prefixes = []string{"p", "q"}
+			m := nsmap
+			g.Env.Match = func(t xast.NodeTest, n *xdoc.Node) bool { return n.Local == t.Local && n.NS == m[t.Prefix] }
+		}
+		if l != nil {
+			l.Flavour, l.HasNS, l.NSMap = xdoc.NS, true, nsmap
+		}
+	}
 }
